@@ -60,3 +60,38 @@ PROPS['C06'] = {
         "closed-form count (K+1)(K+2)/2 of fresh-origin positions is checked as a vacuity guard; a stateless no-dedup enumeration of all sequences of depth <= 3 (K <= 4) must reach exactly the BFS's shallow states",
     ],
 }
+
+PROPS['C04'] = {
+    'level': 'fault_enumeration',
+    'technique': 'exhaustive single-fault enumeration: every call index of every closure / Clone::clone / Iterator::next an operation makes is made to panic once, on the real code, judged by a drop ledger',
+    'parts': [engine_part('caller-panic-enumeration', 'e_fault', 'C04', shards_quick=4)],
+    'rule': ("for every operation x receiver/argument form (generate x4 + default x2; map x4; fold x4; zip 9 stack forms + boxed; Clone of array, Box and of the by-value iterator from every (origin, front, back); "
+             "iterator fold/rfold/for_each/map-collect from every position; try_from_iter/from_iter/try_boxed_from_iter/boxed from_iter from a scripted source of c in {0,N-1,N,N+1,N+2} items with exact/absent hints, and from real "
+             "into_iter().map chains; ArrayBuilder/IntrusiveArrayBuilder/ArrayConsumer dropped at every position and fed by extend) x N in {0..6,9,17} (thorough: +7,8,16,33; iterator positions N<=6, thorough N<=8,16) x element-type "
+             "combinations over {4-byte tracked, 24-byte tracked, zero-sized tracked, plain u32} selecting the needs_drop branches: one fault-free run counts the fault points c, then one execution per k in 0..c with call k panicking. "
+             "A case is one (operation, form, N, types, k); non-trivial = the fault fired and at least one element existed. Oracle: the injected payload propagates, nothing is returned, borrowed sources are intact and live, and after dropping "
+             "the survivors every tracked id has exactly one drop, none observed after drop; zero-sized totals balance."),
+    'exhaustive': True,
+    'exhaustive_scope': 'every fault point of every listed (operation, form, N, type combination); one fault per execution (a second panic while unwinding aborts by language rule)',
+    'assumptions': COMMON_ASSUME + [
+        "a panic in caller code is modelled as a panic at the call's entry after the callee took ownership of its arguments and made its result; the library cannot distinguish other positions inside the call",
+        "Drop of a tracked element only bumps a counter outside the element, so a double drop is recorded rather than corrupting memory",
+    ],
+}
+
+PROPS['C05'] = {
+    'level': 'fault_enumeration',
+    'technique': 'exhaustive single-fault enumeration: for every internally-dropping operation from every iterator position, every choice of the one element whose destructor panics, on the real code; the run continues after the caught panic and a drop ledger is judged',
+    'parts': [engine_part('destructor-panic-enumeration', 'e_fault', 'C05', shards_quick=4)],
+    'rule': ("for every (origin fresh|clone, front f, back b) of the by-value iterator with N in 0..=6 (thorough: 7, 8 complete and 16 on the position lattice) x operation in {nth(n), nth_back(n) for n in 0..=len+1, count, last, drop, "
+             "fold/rfold/for_each with a dropping closure, clone-then-drop, collect-then-drop}; dropping a GenericArray / Box / fresh iterator / boxed into_iter; ArrayBuilder, IntrusiveArrayBuilder and ArrayConsumer dropped at every position; the "
+             "error paths of try_from_iter, from_iter, try_boxed_from_iter, boxed from_iter, TryFrom<Vec>, try_from_vec, try_from_boxed_slice, TryFrom<Box<[T]>> for c in {0,1,N-1,N,N+1,N+2}; map/zip/fold (owned and boxed) with closures that drop "
+             "their arguments, N in {0..6,9,17} (thorough +7,8,16,33): a fault-free run lists the elements destroyed after the arming point, then one execution per such element with its destructor panicking once (never while already panicking). "
+             "After the caught panic the views are observed, next/next_back called once more and everything dropped. A case is one (operation, position, N, element type, panicking element); non-trivial = the destructor panicked inside the operation. "
+             "Oracle: no id dropped twice, none observed after its drop, zero-sized drops never exceed creations; leaks are counted, not flagged."),
+    'exhaustive': True,
+    'exhaustive_scope': 'every panicking element for every listed (operation, position, N); exactly one panicking destructor per execution, which is the property\'s quantifier',
+    'assumptions': COMMON_ASSUME + [
+        "remove/swap_remove out of range destroy the array while already unwinding, where a second panic aborts by language rule; their drop accounting is decided under C09",
+    ],
+}
